@@ -12,7 +12,7 @@ TRUSTED_BASE = [
     "Coq 8.16.1 kernel; vm_compute (bytecode VM) only, no native_compute, no disabled guard/positivity/universe checks",
     "axioms: none -- every Print Assumptions of Props/<id>.v must answer 'Closed under the global context' (checked on every run); thorough tier: coqchk -o must report 'Axioms: <none>'",
     "premises that are explicit hypotheses of theorems (not axioms): streaming law of hashlib/xxhash objects (upd_app, upd_nil), digest widths (Hlen), byte range of digests, the listed collision disjuncts",
-    "translator/gen.py (Python ast, fail-closed) copying constants/tables/schemas and statement shapes from /repo into coq/Gen/Generated.v, and translating four functions of history.py, the format-selection block of commands.seal_file_path and the exit decisions of verify / diff / create (fixed loop shapes / a list-building statement fragment, conditions as expressions) into coq/Gen/GeneratedFns.v",
+    "translator/gen.py (Python ast, fail-closed) copying constants/tables/schemas and statement shapes from /repo into coq/Gen/Generated.v, and translating four functions of history.py, the format-selection block of commands.seal_file_path the exit decisions of verify / diff / create and the chain check of load_from_path (os.path.exists / hash_file mapped to the model's manifest lookup / cdig) (fixed loop shapes / a list-building statement fragment, conditions as expressions) into coq/Gen/GeneratedFns.v",
     "extraction: ExtrOcamlBasic only (Extract Inductive bool=>bool, option=>option, unit=>unit, list=>list, prod=>( * ), sumbool=>bool, sumor=>option; Extract Inlined Constant andb=>(&&), orb=>(||)); no directive of our own; OCaml 4.13.1; ocaml/driver.ml + world_driver.ml glue",
     "correspondence harness (harness/vh): generators, canonicalisers, independent readers (xml.etree/expat, own hex/C4 codec), oracle answers from hashlib/xxhash/pathspec",
     "modelled rather than verified: CPython semantics of the transcribed code, hashlib/OpenSSL, xxhash, lxml/libxml2, pathspec, click, the kernel VFS",
